@@ -174,6 +174,40 @@ func c01RunShape(c *mon.Ctx, s *c01Shape, qs []exact.P, cfgs []IdxCfg, objEvery 
 	return inside
 }
 
+// c01Parsed: the same ring written as a GeoJSON document and parsed under the
+// representation options (a five-position ring may become a Rect, points
+// SimplePoints): object-level membership must still be the exact one.
+func c01Parsed(c *mon.Ctx, s *c01Shape, qs []exact.P, n int) {
+	orc := s.oracle()
+	txt := nPoly(gpts(s.ext)).JSON()
+	po := baseOpts()
+	po.AllowRects, po.AllowSimplePoints = true, n%2 == 0
+	po.IndexGeometry, po.IndexGeometryKind = 1+n%3, geometry.IndexKind(n%3)
+	c.SetCase(func() interface{} { return map[string]interface{}{"text": txt, "options": fmt.Sprintf("%+v", po)} })
+	c.Try(func() {
+		obj, err := geojson.Parse(txt, &po)
+		if err != nil {
+			return
+		}
+		c.Count("parsed_with_allowrects")
+		if _, isRect := obj.(*geojson.Rect); isRect {
+			c.Count("parsed_as_rect")
+		}
+		for _, q := range qs {
+			want := orc(q)
+			gq := gpt(q)
+			c.Eval()
+			for pi, pt := range []geojson.Object{geojson.NewPoint(gq), geojson.NewSimplePoint(gq)} {
+				if got := obj.Contains(pt); got != want || pt.Within(obj) != want || obj.Intersects(pt) != want || pt.Intersects(obj) != want {
+					cs := s.mkCase(q, IdxCfg{}, fmt.Sprintf("Parse(AllowRects=true,AllowSimplePoints=%v) %T vs %s", po.AllowSimplePoints, obj, [...]string{"Point", "SimplePoint"}[pi]), got, want)
+					c.Violation("membership-parsed", "object parsed under the representation options answers differently from exact planar membership", cs)
+					return
+				}
+			}
+		}
+	})
+}
+
 func c01Run(c *mon.Ctx) {
 	item := 0
 	// (a) exhaustive small rings x half-lattice points x 3 index configs
@@ -219,6 +253,9 @@ func c01Run(c *mon.Ctx) {
 					objEvery = 5
 				}
 				in := c01RunShape(c, s, qs, baseIdx, objEvery)
+				if closed && len(s.ext) >= 4 && code%4 == 1 {
+					c01Parsed(c, s, qs, int(code))
+				}
 				if in > 0 && !closed {
 					c.NonTrivial(uint64(hashPts(mon.NewH().I(sp.k), raw)))
 				}
@@ -461,7 +498,7 @@ func init() {
 		Assumptions: []string{"coordinates in the exact domain (multiples of 1/8, |c| <= 2^20)", "oracle: crossing parity with the half-open rule over exactly the segments the series rule defines (internal/exact.Locate)"},
 		Exhaustive:  func(string) bool { return true },
 		Run:         c01Run,
-		MustSee:     []string{"exhaustive_done", "object_level_probes", "polys_with_holes", "random_rings_ge64", "shapes_line", "shapes_rect", "shapes_point"},
+		MustSee:     []string{"parsed_with_allowrects", "parsed_as_rect", "exhaustive_done", "object_level_probes", "polys_with_holes", "random_rings_ge64", "shapes_line", "shapes_rect", "shapes_point"},
 		Replay:      c01Replay,
 	})
 }
